@@ -1,6 +1,7 @@
 import SR.Checker.Sim
 import SR.Proofs.Checker.Sim
 import SR.Proofs.Checker.Fuel
+import SR.Checker.MSimSched
 /-!
 # The fuel of the simulation model
 
@@ -14,6 +15,11 @@ the fuel was used up.
   distinct, and all of them are state numbers `< n` — whatever the key function is (symmetry: representatives).
 * the number of traces: `runTraces_stable` (a run that ended in a stop condition is the same with any larger trace
   budget) and `runTraces_target` (if every trace counts at least one state, `target_state_count` traces suffice).
+
+Second part (`namespace MSim`): ONE worker of the event machine `Checker/MSim.lean`, driven by the step list that the
+chooser's answers induce (`Checker/MSimSched.lean`), IS the single-worker model: the machine accepts every step
+(`runStrict`), and ends with the `disc` and `stateCount` of `Sim.traceLoop` / `Sim.trace` / `Sim.runTraces`
+(`loop_run`, `trace_run`, `run_run`).
 -/
 namespace SR.Checker.Sim
 open SR SR.Checker
@@ -374,3 +380,314 @@ theorem runTraces_target (hc : EveryTraceCounts P) {t : Nat} (ht : P.cfg.target 
 
 end
 end SR.Checker.Sim
+
+/-! ## one worker of the event machine is the single-worker model -/
+
+namespace SR.Checker.MSim
+open SR SR.Checker
+
+set_option linter.unusedSectionVars false
+set_option linter.unusedSimpArgs false
+section
+variable {σ κ α : Type} [DecidableEq σ] [DecidableEq κ] {P : Params σ κ α}
+
+theorem runStrict_append (s : St σ κ) (a b : List (Step σ)) :
+    runStrict P s (a ++ b) = (runStrict P s a).bind (fun s' => runStrict P s' b) := by
+  induction a generalizing s with
+  | nil => rfl
+  | cons f fs ih =>
+    simp only [List.cons_append, runStrict]
+    cases step P f s with
+    | none => rfl
+    | some s' => exact ih s'
+
+theorem runFrom_of_runStrict {s s' : St σ κ} {fs : List (Step σ)} (h : runStrict P s fs = some s') :
+    runFrom P s fs = s' := by
+  induction fs generalizing s with
+  | nil => simp only [runStrict] at h; injection h
+  | cons f fs ih =>
+    simp only [runStrict, runFrom] at h ⊢
+    cases hs : step P f s with
+    | none => rw [hs] at h; cases h
+    | some s1 => rw [hs] at h; exact ih h
+
+/-- the machine with one worker that is inside a trace -/
+def W (d : List (Nat × List σ)) (c : Nat) (t : Tr σ κ) : St σ κ :=
+  { disc := d, stateCount := c, shutdown := false, ws := [.busy t] }
+
+/-- the machine with one worker in state `x` -/
+def W1 (d : List (Nat × List σ)) (c : Nat) (x : WSt σ κ) : St σ κ :=
+  { disc := d, stateCount := c, shutdown := false, ws := [x] }
+
+theorem step_busy (f : Step σ) (hw : f.worker = 0) (d : List (Nat × List σ)) (c : Nat) (t : Tr σ κ) (e : Eff σ κ)
+    (h : busyStep P f false d t = some e) :
+    step P f (W d c t) = some (W1 (match e.ins with | some (i, p) => discInsert d i p | none => d)
+      (if e.cnt then c + 1 else c) e.w') := by
+  simp only [step, effOf, W, hw, List.getElem?_cons_zero, h, applyEff, W1, List.set_cons_zero]
+  rcases e with ⟨w', _ | ⟨i, p⟩, cnt⟩ <;> rfl
+
+
+theorem nodup_propStep {props : List (Prop' σ)} {st : σ} {path : List σ} {o : Nat → Bool}
+    {acc : List Nat × Bool × List (Nat × List σ)} {i : Nat} (h : acc.1.Nodup) :
+    (Sim.propStep props st path o acc i).1.Nodup := by
+  unfold Sim.propStep
+  repeat' split
+  all_goals first
+    | exact h
+    | exact h.erase _
+
+theorem prop_one (st : σ) (path : List σ) (gen : List κ) (c k : Nat) (acc : List Nat × Bool × List (Nat × List σ))
+    (hk : k < P.props.length) (hnd : acc.1.Nodup) :
+    runStrict P (W1 acc.2.2 c (.busy { cur := st, path := path, seen := gen, ebits := acc.1, awaiting := acc.2.1,
+                                       ph := .props k }))
+      (if hasDisc acc.2.2 k then [.evalProp 0 k] else [.evalProp 0 k, .applyProp 0 k]) =
+    some (W1 (Sim.propStep P.props st path (fun _ => false) acc k).2.2 c
+      (.busy { cur := st, path := path, seen := gen,
+               ebits := (Sim.propStep P.props st path (fun _ => false) acc k).1,
+               awaiting := (Sim.propStep P.props st path (fun _ => false) acc k).2.1, ph := .props (k + 1) })) := by
+  by_cases hh : hasDisc acc.2.2 k = true
+  · simp [runStrict, step, effOf, busyStep, applyEff, W1, Step.worker, hk, hh, Sim.propStep,
+      hnd.erase_eq_filter]
+  · have hh' : hasDisc acc.2.2 k = false := by simpa using hh
+    cases hexp : (P.props[k]).exp <;> cases hc : (P.props[k]).cond st <;>
+      simp [runStrict, step, effOf, busyStep, applyEff, W1, Step.worker, hk, hh', Sim.propStep, hexp, hc,
+        hnd.erase_eq_filter]
+
+theorem props_run (st : σ) (path : List σ) (gen : List κ) (c : Nat) :
+    ∀ (m k : Nat) (acc : List Nat × Bool × List (Nat × List σ)), k + m = P.props.length → acc.1.Nodup →
+    runStrict P (W1 acc.2.2 c (.busy { cur := st, path := path, seen := gen, ebits := acc.1, awaiting := acc.2.1,
+                                       ph := .props k }))
+      (propSteps P 0 st path (List.range' k m) acc) =
+    some (W1 ((List.range' k m).foldl (Sim.propStep P.props st path (fun _ => false)) acc).2.2 c
+      (.busy { cur := st, path := path, seen := gen,
+               ebits := ((List.range' k m).foldl (Sim.propStep P.props st path (fun _ => false)) acc).1,
+               awaiting := ((List.range' k m).foldl (Sim.propStep P.props st path (fun _ => false)) acc).2.1,
+               ph := .props (k + m) })) := by
+  intro m
+  induction m with
+  | zero => intro k acc _ _; rfl
+  | succ m ih =>
+    intro k acc hkm hnd
+    simp only [List.range'_succ, propSteps, List.foldl_cons, runStrict_append]
+    rw [prop_one st path gen c k acc (by omega) hnd]
+    simp only [Option.bind_some]
+    rw [ih (k + 1) _ (by omega) (nodup_propStep hnd)]
+    simp only [Nat.add_assoc, Nat.add_comm 1 m]
+
+theorem rec_run (st : σ) (path : List σ) (gen : List κ) (eb : List Nat) (aw : Bool) (c : Nat) :
+    ∀ (m k : Nat) (d : List (Nat × List σ)), k + m = P.props.length →
+    runStrict P (W1 d c (.busy { cur := st, path := path, seen := gen, ebits := eb, awaiting := aw, ph := .record k }))
+      ((List.range' k m).map (Step.recordOne 0)) =
+    some (W1 ((List.range' k m).foldl (fun d i => if i ∈ eb then discInsert d i path else d) d) c
+      (.busy { cur := st, path := path, seen := gen, ebits := eb, awaiting := aw, ph := .record (k + m) })) := by
+  intro m
+  induction m with
+  | zero => intro k d _; rfl
+  | succ m ih =>
+    intro k d hkm
+    have hk : k < P.props.length := by omega
+    simp only [List.range'_succ, List.map_cons, List.foldl_cons, runStrict]
+    by_cases hmem : k ∈ eb
+    · simp only [step, effOf, busyStep, applyEff, W1, Step.worker, hk, hmem, List.getElem?_cons_zero, and_self,
+        if_true, if_false, Bool.false_eq_true, List.set_cons_zero]
+      have := ih (k + 1) (discInsert d k path) (by omega)
+      simp only [W1] at this
+      rw [this]
+      simp only [Nat.add_assoc, Nat.add_comm 1 m]
+    · simp only [step, effOf, busyStep, applyEff, W1, Step.worker, hk, hmem, List.getElem?_cons_zero, and_self,
+        if_true, if_false, Bool.false_eq_true, List.set_cons_zero]
+      have := ih (k + 1) d (by omega)
+      simp only [W1] at this
+      rw [this]
+      simp only [Nat.add_assoc, Nat.add_comm 1 m]
+
+/-- the whole recording loop: `recordAll`, then the trace has ended -/
+theorem recSteps_run (st : σ) (path : List σ) (gen : List κ) (eb : List Nat) (aw : Bool) (c : Nat)
+    (d : List (Nat × List σ)) :
+    runStrict P (W1 d c (.busy { cur := st, path := path, seen := gen, ebits := eb, awaiting := aw, ph := .record 0 }))
+      (recSteps P 0) = some (W1 (Sim.recordAll P.props eb path d) c .ended) := by
+  unfold recSteps
+  rw [runStrict_append, List.range_eq_range', rec_run st path gen eb aw c P.props.length 0 d (by omega)]
+  simp [runStrict, step, effOf, busyStep, applyEff, W1, Step.worker, Sim.recordAll, List.range_eq_range']
+
+theorem propLoop_eq (st : σ) (path : List σ) (eb : List Nat) (d : List (Nat × List σ)) :
+    (List.range' 0 P.props.length).foldl (Sim.propStep P.props st path (fun _ => false)) (eb, false, d) =
+      Sim.propLoop P.props st path eb d := by
+  simp only [Sim.propLoop, List.range_eq_range']
+
+/-- **The loop of one trace**: the machine accepts every step of `loopSteps` and arrives at the `disc` and `stateCount`
+    of `Sim.traceLoop`; if the loop is done (`Sim.loopDone`: the fuel did not run out) the trace has ended. -/
+theorem loop_run (f : Nat) : ∀ (st : σ) (path : List σ) (gen : List κ) (eb ans : List Nat) (g : Sim.G σ) (aw : Bool),
+    eb.Nodup →
+    ∃ x, runStrict P (W1 g.disc g.stateCount
+            (.busy { cur := st, path := path, seen := gen, ebits := eb, awaiting := aw, ph := .top }))
+          (loopSteps P 0 f st path gen eb ans g.disc) =
+        some (W1 (Sim.traceLoop P (fun _ _ => false) f st path gen eb ans g).1.disc
+                 (Sim.traceLoop P (fun _ _ => false) f st path gen eb ans g).1.stateCount x) ∧
+      (Sim.loopDone P (fun _ _ => false) f st path gen eb ans g.disc = true → x = .ended) := by
+  induction f with
+  | zero =>
+    intro st path gen eb ans g aw _
+    exact ⟨_, rfl, by simp [Sim.loopDone]⟩
+  | succ f ih =>
+    intro st path gen eb ans g aw hnd
+    by_cases hd : Sim.depthHit P path.length = true
+    · refine ⟨.ended, ?_, fun _ => rfl⟩
+      simp [loopSteps, Sim.traceLoop, hd, runStrict, step, effOf, busyStep, enterOut, applyEff, W1, Step.worker]
+    by_cases hb : P.M.inB st = true
+    case neg =>
+      refine ⟨.ended, ?_, fun _ => rfl⟩
+      simp [loopSteps, Sim.traceLoop, hd, hb, runStrict, step, effOf, busyStep, enterOut, applyEff, W1, Step.worker]
+    by_cases hk : P.key st ∈ gen
+    · refine ⟨.ended, ?_, fun _ => rfl⟩
+      simp only [loopSteps, Sim.traceLoop, hd, hb, hk, runStrict, if_true, if_false, Bool.false_eq_true, Bool.not_true]
+      simp only [step, effOf, busyStep, enterOut, applyEff, W1, Step.worker, hd, hb, hk, List.getElem?_cons_zero,
+        if_true, if_false, Bool.false_eq_true, Bool.not_true, List.set_cons_zero]
+      have := recSteps_run (P := P) st (path ++ [st]) gen eb aw g.stateCount g.disc
+      simp only [W1] at this
+      exact this
+    -- the state is counted: property loop
+    have hprops := props_run (P := P) st (path ++ [st]) (P.key st :: gen) (g.stateCount + 1) P.props.length 0
+      (eb, false, g.disc) (by omega) hnd
+    rw [propLoop_eq] at hprops
+    simp only [Nat.zero_add, ← List.range_eq_range'] at hprops
+    have hndr : (Sim.propLoop P.props st (path ++ [st]) eb g.disc).1.Nodup := by
+      rw [← propLoop_eq]
+      generalize List.range' 0 P.props.length = l
+      have : ∀ (l : List Nat) (acc : List Nat × Bool × List (Nat × List σ)), acc.1.Nodup →
+          (l.foldl (Sim.propStep P.props st (path ++ [st]) (fun _ => false)) acc).1.Nodup := by
+        intro l
+        induction l with
+        | nil => intro acc h; exact h
+        | cons i l ih => intro acc h; exact ih _ (nodup_propStep h)
+      exact this l _ hnd
+    have henter : step P (.enter 0) (W1 g.disc g.stateCount
+          (.busy { cur := st, path := path, seen := gen, ebits := eb, awaiting := aw, ph := .top })) =
+        some (W1 g.disc (g.stateCount + 1)
+          (.busy { cur := st, path := path ++ [st], seen := P.key st :: gen, ebits := eb, awaiting := false,
+                   ph := .props 0 })) := by
+      simp only [step, effOf, busyStep, enterOut, applyEff, W1, Step.worker, hd, hb, hk, List.getElem?_cons_zero,
+        if_true, if_false, Bool.false_eq_true, Bool.not_true, List.set_cons_zero]
+    by_cases ha : (Sim.propLoop P.props st (path ++ [st]) eb g.disc).2.1 = true
+    case neg =>
+      refine ⟨.ended, ?_, fun _ => rfl⟩
+      simp only [loopSteps, Sim.traceLoop, hd, hb, hk, ha, runStrict, if_true, if_false, Bool.false_eq_true,
+        Bool.not_true, Bool.not_false, henter, runStrict_append, hprops, Option.bind_some]
+      simp [step, effOf, busyStep, applyEff, W1, Step.worker, ha]
+    cases hpick : Sim.pickNext P.M st ((P.M.acts st).length + 1) (P.M.acts st) ans with
+    | mk o ans' =>
+      cases o with
+      | none =>
+        refine ⟨.ended, ?_, fun _ => rfl⟩
+        have hterm : (P.M.succB st).isEmpty = true := by simp [Sim.pickNext_none hpick]
+        simp only [loopSteps, Sim.traceLoop, hd, hb, hk, ha, hpick, runStrict, if_true, if_false,
+          Bool.false_eq_true, Bool.not_true, Bool.not_false, henter, runStrict_append, hprops, Option.bind_some]
+        simp only [step, effOf, busyStep, applyEff, W1, Step.worker, ha, hterm, List.getElem?_cons_zero,
+          if_true, if_false, Bool.false_eq_true, Bool.not_true, List.set_cons_zero, Nat.lt_irrefl]
+        have := recSteps_run (P := P) st (path ++ [st]) (P.key st :: gen)
+          (Sim.propLoop P.props st (path ++ [st]) eb g.disc).1 true (g.stateCount + 1)
+          (Sim.propLoop P.props st (path ++ [st]) eb g.disc).2.2
+        simp only [W1] at this
+        exact this
+      | some n =>
+        have hsucc : n ∈ P.M.succB st := Sim.pickNext_some hpick
+        obtain ⟨x, hx1, hx2⟩ := ih n (path ++ [st]) (P.key st :: gen)
+          (Sim.propLoop P.props st (path ++ [st]) eb g.disc).1 ans'
+          { g with maxDepth := max g.maxDepth path.length, stateCount := g.stateCount + 1,
+                   visits := (path ++ [st]) :: g.visits,
+                   disc := (Sim.propLoop P.props st (path ++ [st]) eb g.disc).2.2 } true hndr
+        refine ⟨x, ?_, ?_⟩
+        · simp only [loopSteps, Sim.traceLoop, hd, hb, hk, ha, hpick, runStrict, if_true, if_false,
+            Bool.false_eq_true, Bool.not_true, Bool.not_false, henter, runStrict_append, hprops, Option.bind_some]
+          simp only [step, effOf, busyStep, applyEff, W1, Step.worker, ha, hsucc, List.getElem?_cons_zero,
+            if_true, if_false, Bool.false_eq_true, Bool.not_true, List.set_cons_zero, Nat.lt_irrefl]
+          simp only [W1] at hx1
+          exact hx1
+        · intro hdone
+          apply hx2
+          simpa only [Sim.loopDone, hd, hb, hk, ha, hpick, if_true, if_false, Bool.false_eq_true, Bool.not_true]
+            using hdone
+
+theorem step_start (d : List (Nat × List σ)) (c : Nat) (x : σ) (hx : x ∈ P.M.init) :
+    step P (.start 0 x) (W1 d c .idle) = some (W1 d c (.busy (newTrace P x))) := by
+  simp [step, effOf, W1, Step.worker, hx]
+
+/-- **One trace**: from a worker at the top of its loop the machine accepts every step of `stepsOfTrace` and arrives at
+    the `disc` and `stateCount` of `Sim.trace`; if there is an initial state and the fuel did not run out the trace has
+    ended. -/
+theorem trace_run (fuel : Nat) (ans : List Nat) (g : Sim.G σ) :
+    ∃ x, runStrict P (W1 g.disc g.stateCount .idle) (stepsOfTrace P 0 fuel ans g.disc) =
+        some (W1 (Sim.trace P fuel ans g).1.disc (Sim.trace P fuel ans g).1.stateCount x) ∧
+      (P.M.init ≠ [] → Sim.traceDone P fuel ans g = true → x = .ended) := by
+  unfold stepsOfTrace Sim.trace Sim.traceDone
+  cases hi : P.M.init with
+  | nil => exact ⟨.idle, rfl, fun h => absurd rfl h⟩
+  | cons i0 is =>
+    simp only
+    have hlt : (Sim.nextAnswer ans (i0 :: is).length).1 < (i0 :: is).length := by
+      unfold Sim.nextAnswer; split
+      · simp
+      · exact Nat.mod_lt _ (by simp)
+    cases hs : (i0 :: is)[(Sim.nextAnswer ans (i0 :: is).length).1]? with
+    | none => rw [List.getElem?_eq_none_iff] at hs; omega
+    | some s =>
+      simp only
+      have hmem : s ∈ P.M.init := by rw [hi]; exact List.mem_of_getElem? hs
+      obtain ⟨x, hx1, hx2⟩ := loop_run (P := P) fuel s [] [] (initEbits P.props)
+        (Sim.nextAnswer ans (i0 :: is).length).2 g false (initEbits_nodup _)
+      refine ⟨x, ?_, fun _ h => hx2 h⟩
+      simp only [runStrict, step_start _ _ _ hmem, newTrace]
+      exact hx1
+
+theorem step_cont (d : List (Nat × List σ)) (c : Nat) (h : goesOn P (W1 d c .ended) = true) :
+    step P (.cont 0) (W1 d c .ended) = some (W1 d c .idle) := by
+  simp only [W1] at h
+  simp [step, effOf, W1, Step.worker, h]
+
+theorem step_leave_finish (d : List (Nat × List σ)) (c : Nat) (h : P.finishMatches (discNames d) = true) :
+    step P (.leave 0 .finish) (W1 d c .ended) = some (W1 d c .left) := by
+  simp [step, effOf, W1, Step.worker, h]
+
+theorem step_leave_target (d : List (Nat × List σ)) (c : Nat) (h1 : P.finishMatches (discNames d) = false)
+    (h2 : Sim.targetHit P c = true) :
+    step P (.leave 0 .target) (W1 d c .ended) = some (W1 d c .left) := by
+  simp [step, effOf, W1, Step.worker, h1, h2]
+
+/-- **The worker loop**: if there is an initial state and no trace runs out of fuel (`Sim.runDone`), the machine accepts
+    every step of `stepsOfRun` and arrives at the `disc` and `stateCount` of `Sim.runTraces`; the worker has left
+    (`finish_when` / target) or is back at the top of its loop (the trace budget `n` is used up). -/
+theorem run_run (hinit : P.M.init ≠ []) (fuel : Nat) (n : Nat) : ∀ (ans : List Nat) (g : Sim.G σ),
+    Sim.runDone P fuel n ans g = true →
+    ∃ x, runStrict P (W1 g.disc g.stateCount .idle) (stepsOfRun P 0 fuel n ans g) =
+        some (W1 (Sim.runTraces P fuel n ans g).disc (Sim.runTraces P fuel n ans g).stateCount x) ∧
+      (x = .left ∨ x = .idle) := by
+  induction n with
+  | zero => intro ans g _; exact ⟨.idle, rfl, Or.inr rfl⟩
+  | succ n ih =>
+    intro ans g hdone
+    unfold Sim.runDone at hdone
+    simp only [Bool.and_eq_true] at hdone
+    obtain ⟨hd1, hd2⟩ := hdone
+    obtain ⟨x, hx1, hx2⟩ := trace_run (P := P) fuel ans g
+    have hx := hx2 hinit hd1
+    subst hx
+    unfold stepsOfRun Sim.runTraces
+    simp only [runStrict_append, hx1, Option.bind_some]
+    by_cases hf : P.finishMatches (discNames (Sim.trace P fuel ans g).1.disc) = true
+    · refine ⟨.left, ?_, Or.inl rfl⟩
+      simp only [hf, if_true, runStrict, step_leave_finish _ _ hf]
+    · have hf' : P.finishMatches (discNames (Sim.trace P fuel ans g).1.disc) = false := by simpa using hf
+      by_cases ht : Sim.targetHit P (Sim.trace P fuel ans g).1.stateCount = true
+      · refine ⟨.left, ?_, Or.inl rfl⟩
+        simp only [hf', ht, if_true, if_false, Bool.false_eq_true, runStrict, step_leave_target _ _ hf' ht]
+      · have ht' : Sim.targetHit P (Sim.trace P fuel ans g).1.stateCount = false := by simpa using ht
+        have hgo : goesOn P (W1 (Sim.trace P fuel ans g).1.disc (Sim.trace P fuel ans g).1.stateCount .ended) = true := by
+          simp [goesOn, W1, hf', ht']
+        have hns : Sim.stops P (Sim.trace P fuel ans g).1 = false := by simp [Sim.stops, hf', ht']
+        simp only [hns, Bool.false_eq_true, if_false] at hd2
+        obtain ⟨y, hy1, hy2⟩ := ih (Sim.trace P fuel ans g).2 (Sim.trace P fuel ans g).1 hd2
+        refine ⟨y, ?_, hy2⟩
+        simp only [hf', ht', if_false, Bool.false_eq_true, runStrict, step_cont _ _ hgo]
+        exact hy1
+end
+end SR.Checker.MSim
